@@ -170,6 +170,16 @@ func dictIdents() []string {
 			add(w)
 			add(strings.ToUpper(w))
 			add(strings.ToLower(w))
+			if len(w) > 1 {
+				add(strings.ToUpper(w[:1]) + strings.ToLower(w[1:]))
+				parts := strings.Split(strings.ToLower(w), "_")
+				for i, pt := range parts {
+					if pt != "" {
+						parts[i] = strings.ToUpper(pt[:1]) + pt[1:]
+					}
+				}
+				add(strings.Join(parts, "_")) // Step_End, Item_None
+			}
 			add(w + "_0")
 			add("_" + w)
 		}
